@@ -144,6 +144,15 @@ impl Session {
     ) -> Result<(Session, Enr), Error> {
         // check and verify a potential ENR update
 
+        // An attached ENR must be the record of the node that claims to send the handshake. A
+        // record of any other node cannot prove the sender's identity: its key would verify a
+        // signature the claimed node never made. This is treated like an invalid signature.
+        if let Some(enr) = enr_record.as_ref() {
+            if &enr.node_id() != remote_id {
+                return Err(Error::InvalidChallengeSignature(Box::new(challenge)));
+            }
+        }
+
         // Duplicate code here to avoid cloning an ENR
         let remote_public_key = {
             let enr = match (enr_record.as_ref(), challenge.remote_enr.as_ref()) {
